@@ -249,6 +249,40 @@ theorem Exps.eq_iff_toQ_eq (a b : Exps) (ha : Exps.valid a = true) (hb : Exps.va
     rw [Exps.valid_iff] at ha hb
     exact Exps.eq_of_toQ_eq a b ha.2 hb.2 (by rw [ha.1, hb.1]) h
 
+/-! ### lists of rationals -/
+
+theorem zipWith_add_comm : ∀ (a b : List ℚ), List.zipWith (· + ·) a b = List.zipWith (· + ·) b a
+  | [], [] => rfl
+  | [], _ :: _ => rfl
+  | _ :: _, [] => rfl
+  | x :: xs, y :: ys => by simp [zipWith_add_comm xs ys, add_comm]
+
+theorem zipWith_add_assoc : ∀ (a b c : List ℚ),
+    List.zipWith (· + ·) (List.zipWith (· + ·) a b) c = List.zipWith (· + ·) a (List.zipWith (· + ·) b c)
+  | [], _, _ => by simp
+  | _ :: _, [], _ => by simp
+  | _ :: _, _ :: _, [] => by simp
+  | x :: xs, y :: ys, z :: zs => by simp [zipWith_add_assoc xs ys zs, add_assoc]
+
+theorem zipWith_add_zero : ∀ (a : List ℚ) (n : Nat), a.length = n →
+    List.zipWith (· + ·) a (List.replicate n 0) = a
+  | [], _, _ => by simp
+  | x :: xs, n, h => by
+    cases n with
+    | zero => simp at h
+    | succ m => simp [List.replicate_succ, zipWith_add_zero xs m (by simpa using h)]
+
+theorem zipWith_zero_add (a : List ℚ) (n : Nat) (h : a.length = n) :
+    List.zipWith (· + ·) (List.replicate n 0) a = a := by
+  rw [zipWith_add_comm]; exact zipWith_add_zero a n h
+
+theorem zipWith_sub_self : ∀ (a : List ℚ), List.zipWith (· - ·) a a = List.replicate a.length 0
+  | [] => rfl
+  | x :: xs => by simp [List.replicate_succ, zipWith_sub_self xs]
+
+theorem toQ_length (a : Exps) : (Exps.toQ a).length = a.length := by simp [Exps.toQ]
+
+
 /-! ### unit types -/
 
 theorem rebind_e (tbl : List Exps) (e : Exps) : (rebind tbl e).e = e := rfl
@@ -267,6 +301,12 @@ theorem canonical_eq_iff (tbl : List Exps) (u v : UT) (hu : u.canonical tbl = tr
     simp only at h hu hv
     subst h
     simp [hu, hv]
+
+theorem isNoUnit_of_units (u : UT) (hv : Exps.valid u.e = true)
+    (h : Exps.toQ u.e = List.replicate 7 0) : u.isNoUnit = true := by
+  simp only [UT.isNoUnit, beq_iff_eq]
+  exact (Exps.eq_iff_toQ_eq _ _ hv noUnit_valid).mpr (by rw [h, noUnit_toQ])
+
 
 /-! ### `PowerPos` computes the power -/
 
